@@ -536,13 +536,14 @@ Proof.
   - injection Hrun as <-. eauto.
   - rewrite <- Ed in *.
     set (c1 := mkLChunk (l_file c) (l_start c) (l_size c) (l_pos c + Z.of_nat (length d))) in *.
-    destruct (IH c1 (acc ++ d) out) as (c' & e & Hr); try assumption.
-    + cbn. lia.
-    + subst c1; cbn [l_pos l_size]. lia.
-    + assert (Eq : set_pos (l_to_chunk c) (l_start c + l_pos c + Z.of_nat (length d))
-                     (amount_read (l_to_chunk c) + Z.of_nat (length d)) = l_to_chunk c1).
-      { unfold set_pos, l_to_chunk, c1. cbn. f_equal. lia. }
-      rewrite Eq, Hr. eauto.
+    assert (H1 : 0 <= l_start c1) by exact Hs.
+    assert (H2 : 0 <= l_pos c1 <= l_size c1) by (subst c1; cbn [l_pos l_size]; lia).
+    assert (H3 : l_start c1 + l_size c1 <= Z.of_nat (length (l_file c1))) by exact Hb.
+    destruct (IH c1 (acc ++ d) out H1 H2 H3 Hrest Hrun) as (c' & e & Hr).
+    assert (Eq : set_pos (l_to_chunk c) (l_start c + l_pos c + Z.of_nat (length d))
+                   (amount_read (l_to_chunk c) + Z.of_nat (length d)) = l_to_chunk c1).
+    { unfold set_pos, l_to_chunk, c1. cbn. f_equal. lia. }
+    rewrite Eq, Hr. eauto.
 Qed.
 
 Theorem legacy_send_exact_pf c where_ sizes out :
@@ -623,13 +624,13 @@ Lemma exec_parts_frame alg uid : forall order s res s' res' m,
   exists m', zlookup uid (s_mpus s') = Some m' /\ m_open m' = true /\ m_key m' = m_key m.
 Proof.
   induction order as [|[pn data] r IH]; intros s res s' res' m Hrun Em Eo.
-  - injection Hrun as <- <-. eauto.
+  - injection Hrun as <- <-. split; [reflexivity|]. split; [reflexivity|]. exists m. auto.
   - cbn [exec_parts] in Hrun.
     destruct (s3_upload_part s uid pn data) as [[s1 etag]|] eqn:Eu; [|discriminate].
     destruct (upload_part_effect _ _ _ _ _ _ Eu) as (m0 & Em0 & Eo0 & Em1 & Ob & Cp).
     rewrite Em in Em0. injection Em0 as <-.
     destruct (IH s1 _ s' res' _ Hrun Em1 eq_refl) as (A & B & m' & C1 & C2 & C3).
-    rewrite A, B, Ob, Cp. eauto.
+    rewrite A, B, Ob, Cp. split; [reflexivity|]. split; [reflexivity|]. exists m'. auto.
 Qed.
 
 (** Task._get_all_main_kwargs: one result per future, in the list's order. *)
@@ -737,3 +738,506 @@ Lemma reorder_permutation {B} (d : B) (l : list B) order :
 Proof.
   intros H. rewrite <- (reorder_identity d l) at 2. unfold reorder. now apply Permutation_map.
 Qed.
+
+(** * Pieces are C14's cut slices *)
+
+Lemma pieces_eq_cuts {A} (l : list A) (P : nat) : forall m s,
+  pieces P (skipn (s * P) l) m =
+  cuts_slices l (Nat.min (s * P) (length l)) (plan_cuts P (length l) (S s) m).
+Proof.
+  induction m as [|m IH]; intros s; cbn [pieces plan_cuts cuts_slices]; [reflexivity|].
+  f_equal.
+  - unfold slice. destruct (Nat.le_gt_cases (s * P) (length l)) as [H|H].
+    + rewrite (Nat.min_l (s * P)) by exact H.
+      rewrite <- (firstn_min_length P). f_equal. rewrite skipn_length. cbn [Nat.mul]. lia.
+    + rewrite (Nat.min_r (s * P)) by lia. rewrite !skipn_all2 by lia. now rewrite !firstn_nil.
+  - rewrite skipn_add. replace (s * P + P)%nat with (S s * P)%nat by (cbn [Nat.mul]; lia).
+    apply IH.
+Qed.
+
+(** The concatenation, through C14's tiling theorem. *)
+Lemma pieces_concat_via_cuts {A} (l : list A) (P n : nat) :
+  (0 < P)%nat -> (length l <= n * P)%nat -> concat (pieces P l n) = l.
+Proof.
+  intros HP Hn. pose proof (pieces_eq_cuts l P n 0) as E. cbn [Nat.mul skipn Nat.min] in E.
+  rewrite E. now apply plan_tiles_bytes.
+Qed.
+
+Lemma pieces_from_zseq (f : list byte) (P : nat) (body : Z -> list byte) (bound : nat) :
+  (forall s, (s < bound)%nat -> body (Z.of_nat s) = firstn P (skipn (s * P) f)) ->
+  forall m s, (s + m <= bound)%nat ->
+  map (fun i => (i + 1, body i)) (zseq (Z.of_nat s) m) =
+  numbered (Z.of_nat s + 1) (pieces P (skipn (s * P) f) m).
+Proof.
+  intros Hb. induction m as [|m IH]; intros s Hs; cbn [zseq map pieces numbered]; [reflexivity|].
+  rewrite (Hb s) by lia. f_equal.
+  replace (Z.of_nat s + 1) with (Z.of_nat (S s)) by lia. rewrite IH by lia.
+  f_equal. rewrite skipn_add. do 2 f_equal. cbn [Nat.mul]. lia.
+Qed.
+
+(** * Copies: the CopySourceRange slices *)
+
+(** One planned range denotes one piece (intervals from C14's lemmas
+    [range_total_same] and [part_interval_eq]). *)
+Lemma range_bytes_piece (o : bytes) ps (s : nat) : 0 < ps ->
+  let L := Z.of_nat (length o) in
+  Z.of_nat s < num_parts L ps ->
+  range_bytes o (range_param ps (Z.of_nat s) (num_parts L ps) (Some L)) =
+  firstn (Z.to_nat ps) (skipn (s * Z.to_nat ps) o).
+Proof.
+  intros Hp L Hs. unfold range_bytes. fold L.
+  assert (Hi : 0 <= Z.of_nat s < num_parts L ps) by lia.
+  rewrite (range_total_same L ps (Z.of_nat s) ltac:(lia) Hp Hi).
+  pose proof (part_interval_eq L ps (Z.of_nat s) ltac:(lia) Hp Hi) as E.
+  unfold part_interval in E. rewrite E.
+  pose proof (part_interval_nonempty L ps (Z.of_nat s) ltac:(lia) Hp Hi) as Hne.
+  assert (E1 : Z.to_nat (Z.of_nat s * ps) = (s * Z.to_nat ps)%nat).
+  { rewrite Z2Nat.inj_mul, Nat2Z.id by lia. reflexivity. }
+  assert (E2 : Z.of_nat (s * Z.to_nat ps) = Z.of_nat s * ps).
+  { rewrite Nat2Z.inj_mul, Z2Nat.id by lia. reflexivity. }
+  rewrite E1. rewrite <- (firstn_min_length (Z.to_nat ps)). f_equal.
+  rewrite skipn_length. subst L. lia.
+Qed.
+
+Definition copy_tasks (cplan : list (Z * (Z * option Z) * Z)) : list (Z * (Z * option Z)) :=
+  map (fun p => (fst (fst p), snd (fst p))) cplan.
+
+Definition copy_task_bytes (o : bytes) (tasks : list (Z * (Z * option Z))) : list (Z * bytes) :=
+  map (fun t => (fst t, range_bytes o (snd t))) tasks.
+
+Theorem copy_ranges_tile_pf mn mx mp (o : bytes) cfg cplan :
+  0 < mn -> mn <= mx -> 1 <= mp -> 0 < cfg ->
+  copy_plan_with mn mx mp (Z.of_nat (length o)) cfg = Some cplan ->
+  exists c, adjust_chunksize_with mn mx mp cfg (Some (Z.of_nat (length o))) = Some c /\
+            mn <= c <= mx /\
+            parts_tile c o (copy_task_bytes o (copy_tasks cplan)).
+Proof.
+  intros Hmn Hmx Hmp Hcfg. unfold copy_plan_with.
+  destruct (adjust_chunksize_with mn mx mp cfg (Some (Z.of_nat (length o)))) as [c|] eqn:Ea; [|discriminate].
+  intros [= <-]. exists c. split; [reflexivity|].
+  pose proof (adjust_with_in_limits mn mx mp Hmx cfg _ c Ea) as Hin. split; [exact Hin|].
+  assert (Hc : 0 < c) by lia.
+  unfold copy_task_bytes, copy_tasks. rewrite !map_map. cbn [fst snd].
+  set (L := Z.of_nat (length o)). set (n := Z.to_nat (num_parts L c)).
+  pose proof (pieces_from_zseq o (Z.to_nat c)
+                (fun i => range_bytes o (range_param c i (num_parts L c) (Some L))) n) as Hpz.
+  cbv beta in Hpz.
+  assert (Hb : forall s : nat, (s < n)%nat ->
+            range_bytes o (range_param c (Z.of_nat s) (num_parts L c) (Some L)) =
+            firstn (Z.to_nat c) (skipn (s * Z.to_nat c) o)).
+  { intros s Hs. apply range_bytes_piece; [exact Hc|]. subst n. fold L. lia. }
+  assert (E : map (fun x : Z => (x + 1, range_bytes o (range_param c x (num_parts L c) (Some L))))
+                  (zseq 0 n) = numbered 1 (pieces (Z.to_nat c) o n)).
+  { apply (Hpz Hb n 0%nat). lia. }
+  rewrite E. subst n L. now apply pieces_tile.
+Qed.
+
+Lemma exec_copy_as_parts alg uid src o : forall order s res,
+  s3_object s src = Some o ->
+  exec_copy_parts alg s uid src order res =
+  exec_parts alg s uid (copy_task_bytes o order) res.
+Proof.
+  induction order as [|[pn rg] r IH]; intros s res Ho; [reflexivity|].
+  cbn [exec_copy_parts copy_task_bytes map exec_parts fst snd].
+  unfold s3_upload_part_copy. rewrite Ho.
+  destruct (s3_upload_part s uid pn (range_bytes o rg)) as [[s1 etag]|] eqn:Eu; [|reflexivity].
+  destruct (upload_part_effect _ _ _ _ _ _ Eu) as (m & _ & _ & _ & Ob & _).
+  apply IH. unfold s3_object in *. now rewrite Ob.
+Qed.
+
+Lemma collect_keys_eq res : forall (l : list (Z * bytes)), collect_keys (map fst l) res = collect l res.
+Proof. induction l as [|[pn d] r IH]; cbn [map fst collect_keys collect]; [reflexivity|]. now rewrite IH. Qed.
+
+Lemma reorder_map {B C} (g : B -> C) (d : B) (l : list B) order :
+  reorder (g d) (map g l) order = map g (reorder d l order).
+Proof. unfold reorder. rewrite map_map. apply map_ext. intros i. apply map_nth. Qed.
+
+(** * Sizes *)
+
+Lemma abl_sizes_ok (C : nat) (min_part : Z) : min_part <= Z.of_nat C -> forall l : list bytes,
+  all_but_last_len C l -> sizes_ok min_part l = true.
+Proof.
+  intros Hm. induction l as [|x r IH]; intros H; [reflexivity|].
+  destruct r as [|y r']; [reflexivity|].
+  cbn [all_but_last_len] in H. destruct H as [H1 H2].
+  change (sizes_ok min_part (x :: y :: r')) with
+    ((min_part <=? Z.of_nat (length x)) && sizes_ok min_part (y :: r')).
+  rewrite (IH H2). apply andb_true_intro. split; [lia|reflexivity].
+Qed.
+
+(** * From request scripts to the bytes the service receives *)
+
+Definition scripts_ok (scripts : list send_script) : Prop :=
+  Forall (fun sc => Forall (fun n => 0 < n) (ss_sizes sc)) scripts.
+
+Lemma plan_tasks_exact : forall chunks scripts tasks,
+  Forall (fun p => wf (snd p)) chunks -> scripts_ok scripts ->
+  plan_tasks chunks scripts = Some tasks -> tasks = plan_part_bytes chunks.
+Proof.
+  induction chunks as [|[pn c] pr IH]; intros scripts tasks Hwf Hsc H.
+  - destruct scripts; [|discriminate]. injection H as <-. reflexivity.
+  - destruct scripts as [|sc sr]; [discriminate|]. cbn [plan_tasks] in H.
+    inversion Hwf as [|? ? W1 W2]; subst. inversion Hsc as [|? ? S1 S2]; subst.
+    destruct (final_send c sc) as [d|] eqn:Ef; [|discriminate].
+    destruct (plan_tasks pr sr) as [r|] eqn:Er; [|discriminate]. injection H as <-.
+    cbn [plan_part_bytes map fst snd]. rewrite (final_send_exact c sc d W1 S1 Ef).
+    f_equal. now apply IH with (scripts := sr).
+Qed.
+
+Lemma plan_part_bytes_length chunks : length (plan_part_bytes chunks) = length chunks.
+Proof. apply map_length. Qed.
+
+(** The heart of C01 for a multipart plan whose bodies tile the source. *)
+Theorem run_upload_parts_exact min_part alg s key chunks scripts order c src s' ok parts :
+  Forall (fun p => wf (snd p)) chunks ->
+  parts_tile c src (plan_part_bytes chunks) -> src <> [] ->
+  0 < c -> min_part <= c ->
+  scripts_ok scripts ->
+  Permutation order (seq 0 (length chunks)) ->
+  run_upload min_part alg s key (PlanParts chunks) scripts order = Some (s', ok, parts) ->
+  ok = true /\ s3_object s' key = Some src /\
+  map pm_num parts = zseq 1 (length chunks) /\
+  exists uid, s_completes s' = mkCompleteRec uid parts true :: s_completes s /\
+              Forall2 (listed alg s' uid) (plan_part_bytes chunks) parts.
+Proof.
+  intros Hwf (T1 & T2 & T3 & T4) Hsrc Hc Hmin Hsc Hperm. cbn [run_upload].
+  destruct (plan_tasks chunks scripts) as [tasks|] eqn:Et; [|discriminate].
+  pose proof (plan_tasks_exact chunks scripts tasks Hwf Hsc Et) as ->.
+  remember (plan_part_bytes chunks) as tasks eqn:Etasks.
+  destruct (run_multipart min_part alg s key tasks (reorder (0, []) tasks order))
+    as [[[[s1 uid] ok1] ps]|] eqn:Er; [|discriminate].
+  intros [= <- <- <-].
+  assert (Hne : tasks <> []).
+  { intros E. rewrite E in T1. cbn in T1. congruence. }
+  assert (Hlen : length tasks = length chunks) by (subst tasks; apply plan_part_bytes_length).
+  destruct (run_multipart_exact min_part alg s key tasks (reorder (0, []) tasks order) s1 uid ok1 ps T2 Hne)
+    as (R1 & R2 & R3 & R4 & R5).
+  - apply (abl_sizes_ok (Z.to_nat c)); [lia|exact T4].
+  - apply reorder_permutation. assert (Hp2 : Permutation order (seq 0 (length tasks))) by (rewrite Hlen; exact Hperm). exact Hp2.
+  - exact Er.
+  - split; [exact R1|]. split; [rewrite <- T1; exact R2|]. split; [rewrite <- Hlen; exact R4|].
+    exists uid. split; [exact R5|exact R3].
+Qed.
+
+Theorem run_upload_put_exact min_part alg s key body scripts order s' ok parts :
+  wf body -> scripts_ok scripts ->
+  run_upload min_part alg s key (PlanPut body) scripts order = Some (s', ok, parts) ->
+  ok = true /\ s3_object s' key = Some (chunk_bytes body) /\ parts = [] /\
+  s_completes s' = s_completes s.
+Proof.
+  intros Hwf Hsc. cbn [run_upload]. destruct scripts as [|sc [|sc2 r]]; try discriminate.
+  destruct (final_send body sc) as [d|] eqn:Ef; [|discriminate]. intros [= <- <- <-].
+  inversion Hsc as [|? ? S1 _]; subst.
+  rewrite (final_send_exact body sc d Hwf S1 Ef).
+  unfold s3_object, s3_put. cbn [s_objects s_completes zlookup]. rewrite Z.eqb_refl. auto.
+Qed.
+
+(** * The plans of the three source kinds are sound *)
+
+(** Seekable streams: positioned inside the data and returning full reads
+    (the part count is fixed from the measured size before anything is read). *)
+Definition src_ok (src : source) : Prop :=
+  match src with
+  | SrcPath _ => True
+  | SrcSeekable d p scr => 0 <= p <= Z.of_nat (length d) /\ scr = []
+  | SrcStream _ _ => True
+  end.
+
+Lemma Forall_numbered {B} (P : B -> Prop) (l : list B) : forall k,
+  Forall P l -> Forall (fun p => P (snd p)) (numbered k l).
+Proof. induction l as [|x r IH]; intros k H; cbn [numbered]; inversion H; subst; constructor; auto. Qed.
+
+Lemma wrap_parts_bytes (l : list (Z * list byte)) : plan_part_bytes (wrap_parts l) = l.
+Proof.
+  unfold plan_part_bytes, wrap_parts. rewrite map_map. cbn [fst snd].
+  induction l as [|[k d] r IH]; cbn [map fst snd]; [reflexivity|]. rewrite IH. f_equal. f_equal.
+  unfold wrap_data. apply chunk_bytes_private. lia.
+Qed.
+
+Lemma wrap_parts_wf (l : list (Z * list byte)) : Forall (fun p => wf (snd p)) (wrap_parts l).
+Proof.
+  unfold wrap_parts. apply Forall_forall. intros p Hp. apply in_map_iff in Hp as (q & <- & _).
+  cbn [snd]. apply wrap_data_wf.
+Qed.
+
+Lemma fn_parts_wf f c : 0 < c -> Forall (fun p => wf (snd p)) (fn_parts f c).
+Proof.
+  intros Hc. unfold fn_parts. apply Forall_forall. intros p Hp.
+  apply in_map_iff in Hp as (i & <- & Hi). apply zseq_In in Hi. unfold fn_part. cbn [snd].
+  pose proof (ceil_div_spec (Z.of_nat (length f)) c ltac:(lia) Hc) as Hs.
+  pose proof (ceil_div_nonneg (Z.of_nat (length f)) c ltac:(lia) Hc) as Hn.
+  unfold num_parts in Hi. rewrite Z2Nat.id in Hi by lia.
+  apply mk_chunk_wf; try lia. nia.
+Qed.
+
+Lemma sk_parts_wf data p c : 0 < c -> Forall (fun q => wf (snd q)) (fst (sk_parts data p c [])).
+Proof.
+  intros Hc. unfold sk_parts. rewrite sk_parts_loop_spec by reflexivity.
+  apply Forall_numbered. apply Forall_forall. intros ch Hch.
+  apply in_map_iff in Hch as (d & <- & _). apply mk_chunk_wf; lia.
+Qed.
+
+Theorem upload_plan_sound mn mx mp thr cfg src pl c reads :
+  0 < mn -> mn <= mx -> 1 <= mp -> 0 < thr -> 0 < cfg -> src_ok src ->
+  upload_plan_src mn mx mp thr cfg src = Some (pl, c, reads) ->
+  match pl with
+  | PlanPut body =>
+      wf body /\ chunk_bytes body = source_bytes src /\
+      Z.of_nat (length (source_bytes src)) < thr
+  | PlanParts chunks =>
+      Forall (fun p => wf (snd p)) chunks /\
+      parts_tile c (source_bytes src) (plan_part_bytes chunks) /\
+      thr <= Z.of_nat (length (source_bytes src)) /\ mn <= c <= mx
+  end.
+Proof.
+  intros Hmn Hmx Hmp Hthr Hcfg Hok. destruct src as [f|d p scr|d scr]; cbn [upload_plan_src source_bytes].
+  - (* path *)
+    unfold is_multipart. destruct (thr <=? Z.of_nat (length f)) eqn:Em.
+    + destruct (adjust_chunksize_with mn mx mp cfg (Some (Z.of_nat (length f)))) as [c'|] eqn:Ea; [|discriminate].
+      intros [= <- <- <-]. pose proof (adjust_with_in_limits mn mx mp Hmx cfg _ c' Ea) as Hin.
+      split; [apply fn_parts_wf; lia|]. split; [apply filename_parts_tile_pf; lia|]. split; [lia|exact Hin].
+    + intros [= <- <- <-]. split; [apply fn_put_body_wf|]. split; [apply fn_put_body_bytes|lia].
+  - (* seekable *)
+    cbn [src_ok] in Hok. destruct Hok as [Hp ->].
+    assert (Hlen : Z.of_nat (length (skipn (Z.to_nat p) d)) = sk_size d p).
+    { unfold sk_size. rewrite skipn_length. lia. }
+    unfold is_multipart. destruct (thr <=? sk_size d p) eqn:Em.
+    + destruct (adjust_chunksize_with mn mx mp cfg (Some (sk_size d p))) as [c'|] eqn:Ea; [|discriminate].
+      pose proof (adjust_with_in_limits mn mx mp Hmx cfg _ c' Ea) as Hin.
+      pose proof (sk_parts_wf d p c' ltac:(lia)) as W.
+      pose proof (seekable_parts_tile_pf d p c' ltac:(lia) ltac:(lia)) as T.
+      destruct (sk_parts d p c' []) as [parts st]. cbn [fst] in *. intros [= <- <- <-].
+      split; [exact W|]. split; [exact T|]. split; [lia|exact Hin].
+    + intros [= <- <- <-]. split; [apply sk_put_body_wf; exact Hp|].
+      split; [apply sk_put_body_bytes; lia|lia].
+  - (* non-seekable stream *)
+    pose proof (nonseekable_multipart_iff_pf d scr thr) as Hiff.
+    pose proof (nonseekable_put_body_exact_pf d scr thr) as Hput.
+    destruct (ns_preread (mkStream d scr []) thr) as [im st1] eqn:Ep. cbn [fst snd] in *.
+    destruct (ns_requires_multipart im thr) eqn:Em.
+    + unfold adjust_chunksize_with.
+      pose proof (nonseekable_parts_tile_pf d scr thr (adjust_limits cfg mn mx)
+                    ltac:(pose proof (adjust_limits_in_range cfg mn mx Hmx); lia)) as T.
+      rewrite Ep in T. cbn [fst snd] in T.
+      destruct (ns_parts im st1 (adjust_limits cfg mn mx)) as [parts st2]. cbn [fst] in T.
+      intros [= <- <- <-]. split; [apply wrap_parts_wf|]. rewrite wrap_parts_bytes.
+      split; [exact T|]. split; [now apply Hiff|]. now apply adjust_limits_in_range.
+    + destruct (ns_put_body im st1) as [d1 st2]. cbn [fst] in Hput. intros [= <- <- <-].
+      split; [apply wrap_data_wf|]. split.
+      * unfold wrap_data. rewrite chunk_bytes_private by lia. exact Hput.
+      * destruct (Z_lt_le_dec (Z.of_nat (length d)) thr) as [H|H]; [exact H|].
+        apply Hiff in H. congruence.
+Qed.
+
+(** * C01 for uploads *)
+
+Theorem upload_exact_pf mn mx mp thr cfg alg src s key pl c reads scripts order s' ok parts :
+  0 < mn -> mn <= mx -> 1 <= mp -> 0 < thr -> 0 < cfg -> src_ok src ->
+  upload_plan_src mn mx mp thr cfg src = Some (pl, c, reads) ->
+  scripts_ok scripts ->
+  Permutation order (seq 0 (plan_len pl)) ->
+  run_upload mn alg s key pl scripts order = Some (s', ok, parts) ->
+  ok = true /\ s3_object s' key = Some (source_bytes src) /\
+  match pl with
+  | PlanPut _ =>
+      Z.of_nat (length (source_bytes src)) < thr /\ parts = [] /\
+      s_completes s' = s_completes s
+  | PlanParts chunks =>
+      thr <= Z.of_nat (length (source_bytes src)) /\
+      parts_tile c (source_bytes src) (plan_part_bytes chunks) /\
+      map pm_num parts = zseq 1 (length chunks) /\
+      exists uid, s_completes s' = mkCompleteRec uid parts true :: s_completes s /\
+                  Forall2 (listed alg s' uid) (plan_part_bytes chunks) parts
+  end.
+Proof.
+  intros Hmn Hmx Hmp Hthr Hcfg Hok Hplan Hsc Hperm Hrun.
+  pose proof (upload_plan_sound mn mx mp thr cfg src pl c reads Hmn Hmx Hmp Hthr Hcfg Hok Hplan) as S.
+  destruct pl as [body|chunks].
+  - destruct S as (W & B & L).
+    destruct (run_upload_put_exact mn alg s key body scripts order s' ok parts W Hsc Hrun) as (R1 & R2 & R3 & R4).
+    rewrite B in R2. auto.
+  - destruct S as (W & T & L & Hin).
+    assert (Hne : source_bytes src <> []).
+    { intros E. rewrite E in L. cbn [length] in L. lia. }
+    destruct (run_upload_parts_exact mn alg s key chunks scripts order c (source_bytes src) s' ok parts
+                W T Hne ltac:(lia) ltac:(lia) Hsc Hperm Hrun) as (R1 & R2 & R3 & uid & R4 & R5).
+    split; [exact R1|]. split; [exact R2|]. split; [exact L|]. split; [exact T|]. split; [exact R3|].
+    exists uid. auto.
+Qed.
+
+(** * C01 for copies *)
+
+Lemma run_copy_multipart_eq mn mx mp thr cfg alg s src dst o order cplan :
+  s3_object s src = Some o ->
+  is_multipart (Z.of_nat (length o)) thr = true ->
+  copy_plan_with mn mx mp (Z.of_nat (length o)) cfg = Some cplan ->
+  run_copy mn mx mp thr cfg alg s src dst order =
+  match run_multipart mn alg s dst (copy_task_bytes o (copy_tasks cplan))
+          (copy_task_bytes o (reorder (0, (0, None)) (copy_tasks cplan) order)) with
+  | Some (s', _, ok, ps) => Some (s', ok, ps)
+  | None => None
+  end.
+Proof.
+  intros Ho Hm Hp. unfold run_copy, run_multipart. rewrite Ho, Hm, Hp. fold (copy_tasks cplan).
+  unfold s3_create. rewrite (exec_copy_as_parts alg _ src o) by exact Ho.
+  destruct (exec_parts alg _ _ _ []) as [[s2 res]|]; [|reflexivity].
+  replace (collect_keys (map fst (copy_tasks cplan)) res)
+    with (collect (copy_task_bytes o (copy_tasks cplan)) res).
+  - destruct (collect _ res) as [parts|]; [|reflexivity].
+    destruct (s3_complete mn s2 (s_next_upload s + 1) parts). reflexivity.
+  - rewrite <- collect_keys_eq. unfold copy_task_bytes. now rewrite map_map.
+Qed.
+
+Theorem copy_exact_pf mn mx mp thr cfg alg s src dst o order s' ok parts :
+  0 < mn -> mn <= mx -> 1 <= mp -> 0 < thr -> 0 < cfg ->
+  s3_object s src = Some o ->
+  (forall cplan, copy_plan_with mn mx mp (Z.of_nat (length o)) cfg = Some cplan ->
+                 Permutation order (seq 0 (length cplan))) ->
+  run_copy mn mx mp thr cfg alg s src dst order = Some (s', ok, parts) ->
+  ok = true /\ s3_object s' dst = Some o /\
+  if is_multipart (Z.of_nat (length o)) thr then
+    exists uid cplan c,
+      copy_plan_with mn mx mp (Z.of_nat (length o)) cfg = Some cplan /\
+      parts_tile c o (copy_task_bytes o (copy_tasks cplan)) /\
+      map pm_num parts = zseq 1 (length cplan) /\
+      s_completes s' = mkCompleteRec uid parts true :: s_completes s /\
+      Forall2 (listed alg s' uid) (copy_task_bytes o (copy_tasks cplan)) parts
+  else parts = [] /\ s_completes s' = s_completes s.
+Proof.
+  intros Hmn Hmx Hmp Hthr Hcfg Ho Hperm Hrun.
+  destruct (is_multipart (Z.of_nat (length o)) thr) eqn:Em.
+  - destruct (adjust_with_total mn mx mp Hmp cfg (Z.of_nat (length o)) Hcfg ltac:(lia)) as [c0 Ea].
+    destruct (copy_plan_with mn mx mp (Z.of_nat (length o)) cfg) as [cplan|] eqn:Ep.
+    2:{ unfold copy_plan_with in Ep. rewrite Ea in Ep. discriminate. }
+    destruct (copy_ranges_tile_pf mn mx mp o cfg cplan Hmn Hmx Hmp Hcfg Ep) as (c & _ & Hin & T).
+    rewrite (run_copy_multipart_eq mn mx mp thr cfg alg s src dst o order cplan Ho Em Ep) in Hrun.
+    set (tasks := copy_task_bytes o (copy_tasks cplan)) in *.
+    destruct (run_multipart mn alg s dst tasks _) as [[[[s1 uid] ok1] ps]|] eqn:Er; [|discriminate].
+    injection Hrun as <- <- <-.
+    destruct T as (T1 & T2 & T3 & T4).
+    assert (Hlen : length tasks = length cplan).
+    { unfold tasks, copy_task_bytes, copy_tasks. now rewrite !map_length. }
+    assert (Hne : tasks <> []).
+    { intros E. rewrite E in T1. cbn in T1. unfold is_multipart in Em.
+      rewrite <- T1 in Em. cbn [length] in Em. lia. }
+    assert (Hsz : sizes_ok mn (map snd tasks) = true)
+      by (apply (abl_sizes_ok (Z.to_nat c)); [lia|exact T4]).
+    assert (Hp : Permutation (copy_task_bytes o (reorder (0, (0, None)) (copy_tasks cplan) order)) tasks).
+    { unfold tasks. unfold copy_task_bytes at 1.
+      rewrite <- (reorder_map (fun t : Z * (Z * option Z) => (fst t, range_bytes o (snd t)))).
+      apply reorder_permutation. fold (copy_task_bytes o (copy_tasks cplan)). fold tasks.
+      assert (Hp2 : Permutation order (seq 0 (length tasks))) by (rewrite Hlen; now apply Hperm).
+      exact Hp2. }
+    destruct (run_multipart_exact mn alg s dst tasks _ s1 uid ok1 ps T2 Hne Hsz Hp Er)
+      as (R1 & R2 & R3 & R4 & R5).
+    split; [exact R1|]. split; [rewrite <- T1; exact R2|].
+    exists uid, cplan, c. split; [reflexivity|]. split; [repeat split; assumption|].
+    split; [rewrite <- Hlen; exact R4|]. split; [exact R5|exact R3].
+  - unfold run_copy in Hrun. rewrite Ho, Em in Hrun. unfold s3_copy_object in Hrun. rewrite Ho in Hrun.
+    injection Hrun as <- <- <-. unfold s3_object. cbn [s_objects s_completes zlookup].
+    rewrite Z.eqb_refl. auto.
+Qed.
+
+(** * C01 for the legacy uploader *)
+
+Lemma legacy_tasks_exact f ps : 0 < ps -> forall (idx : list Z) sizes tasks,
+  (forall i, In i idx -> 0 <= i < num_parts (Z.of_nat (length f)) ps) ->
+  Forall (fun sz => Forall (fun n => 0 < n) sz) sizes ->
+  legacy_tasks (map (fun i => (i + 1, mk_lchunk f (ps * i) ps)) idx) sizes = Some tasks ->
+  tasks = legacy_part_bytes (map (fun i => (i + 1, mk_lchunk f (ps * i) ps)) idx).
+Proof.
+  intros Hp. induction idx as [|i idx IH]; intros sizes tasks Hi Hs H.
+  - destruct sizes; [|discriminate]. injection H as <-. reflexivity.
+  - destruct sizes as [|sz sr]; [discriminate|]. cbn [map legacy_tasks] in H.
+    inversion Hs as [|? ? S1 S2]; subst.
+    destruct (l_send_loop _ sz []) as [d|] eqn:El; [|discriminate].
+    destruct (legacy_tasks _ sr) as [r|] eqn:Er; [|discriminate]. injection H as <-.
+    cbn [legacy_part_bytes map fst snd]. f_equal.
+    + f_equal.
+      pose proof (Hi i (or_introl eq_refl)) as Hb.
+      pose proof (ceil_div_spec (Z.of_nat (length f)) ps ltac:(lia) Hp) as Hc. unfold num_parts in Hb.
+      destruct (mk_lchunk_bounds f (ps * i) ps ltac:(nia) ltac:(lia)) as (B1 & B2 & B3).
+      apply (legacy_send_exact_pf (mk_lchunk f (ps * i) ps) 0 sz d B1 B2 B3 S1). exact El.
+    + apply (IH sr r); [intros j Hj; apply Hi; now right|exact S2|exact Er].
+Qed.
+
+Theorem legacy_upload_exact_pf min_part s key f thr ps sizes order s' ok parts :
+  0 < thr -> 0 < ps -> min_part <= ps ->
+  Forall (fun sz => Forall (fun n => 0 < n) sz) sizes ->
+  Permutation order (seq 0 (length (legacy_parts f ps))) ->
+  run_legacy_upload min_part s key f thr ps sizes order = Some (s', ok, parts) ->
+  ok = true /\ s3_object s' key = Some f /\
+  if is_multipart (Z.of_nat (length f)) thr then
+    parts_tile ps f (legacy_part_bytes (legacy_parts f ps)) /\
+    map pm_num parts = zseq 1 (length (legacy_parts f ps)) /\
+    exists uid, s_completes s' = mkCompleteRec uid parts true :: s_completes s /\
+                Forall2 (listed false s' uid) (legacy_part_bytes (legacy_parts f ps)) parts
+  else parts = [] /\ s_completes s' = s_completes s.
+Proof.
+  intros Hthr Hps Hmin Hs Hperm. unfold run_legacy_upload.
+  destruct (is_multipart (Z.of_nat (length f)) thr) eqn:Em.
+  - destruct (legacy_tasks (legacy_parts f ps) sizes) as [tasks|] eqn:Et; [|discriminate].
+    assert (Etasks : tasks = legacy_part_bytes (legacy_parts f ps)).
+    { unfold legacy_parts in *. apply (legacy_tasks_exact f ps Hps _ sizes tasks); [|exact Hs|exact Et].
+      intros i Hi. apply zseq_In in Hi.
+      pose proof (ceil_div_nonneg (Z.of_nat (length f)) ps ltac:(lia) Hps). unfold num_parts in *.
+      rewrite Z2Nat.id in Hi by lia. lia. }
+    destruct (run_multipart min_part false s key tasks _) as [[[[s1 uid] ok1] pm]|] eqn:Er; [|discriminate].
+    intros [= <- <- <-].
+    pose proof (legacy_parts_tile_pf f ps Hps) as T. rewrite <- Etasks in T.
+    destruct T as (T1 & T2 & T3 & T4).
+    assert (Hlen : length tasks = length (legacy_parts f ps)).
+    { rewrite Etasks. apply map_length. }
+    assert (Hne : tasks <> []).
+    { intros E. rewrite E in T1. cbn in T1. unfold is_multipart in Em.
+      rewrite <- T1 in Em. cbn [length] in Em. lia. }
+    assert (Hsz : sizes_ok min_part (map snd tasks) = true)
+      by (apply (abl_sizes_ok (Z.to_nat ps)); [lia|exact T4]).
+    assert (Hp : Permutation (reorder (0, []) tasks order) tasks).
+    { apply reorder_permutation.
+      assert (Hp2 : Permutation order (seq 0 (length tasks))) by (rewrite Hlen; exact Hperm).
+      exact Hp2. }
+    destruct (run_multipart_exact min_part false s key tasks _ s1 uid ok1 pm T2 Hne Hsz Hp Er)
+      as (R1 & R2 & R3 & R4 & R5).
+    split; [exact R1|]. split; [rewrite <- T1; exact R2|]. rewrite <- Etasks.
+    split; [repeat split; assumption|]. split; [rewrite <- Hlen; exact R4|].
+    exists uid. split; [exact R5|exact R3].
+  - destruct sizes as [|sz [|sz2 r]]; try discriminate.
+    destruct (l_send_loop _ sz []) as [d|] eqn:El; [|discriminate]. intros [= <- <- <-].
+    inversion Hs as [|? ? S1 _]; subst.
+    destruct (mk_lchunk_bounds f 0 (Z.of_nat (length f)) ltac:(lia) ltac:(lia)) as (B1 & B2 & B3).
+    pose proof (legacy_send_exact_pf (legacy_put_body f) 0 sz d B1 B2 B3 S1 El) as ->.
+    split; [reflexivity|]. split; [|auto].
+    unfold s3_object, s3_put. cbn [s_objects zlookup]. rewrite Z.eqb_refl. f_equal.
+    unfold lchunk_bytes, legacy_put_body, mk_lchunk. cbn [l_size l_start l_file].
+    change (Z.to_nat 0) with 0%nat. cbn [skipn]. apply firstn_all2. lia.
+Qed.
+
+(** * Corollaries in the shape props/C01.v states them *)
+
+Theorem complete_lists_parts_in_order_pf min_part alg s key tasks order s' uid ok parts :
+  map fst tasks = zseq 1 (length tasks) -> tasks <> [] ->
+  sizes_ok min_part (map snd tasks) = true ->
+  Permutation order tasks ->
+  run_multipart min_part alg s key tasks order = Some (s', uid, ok, parts) ->
+  map pm_num parts = zseq 1 (length tasks) /\
+  Forall2 (listed alg s' uid) tasks parts /\
+  s_completes s' = mkCompleteRec uid parts true :: s_completes s.
+Proof.
+  intros H1 H2 H3 H4 H5.
+  destruct (run_multipart_exact min_part alg s key tasks order s' uid ok parts H1 H2 H3 H4 H5)
+    as (_ & _ & R3 & R4 & R5). auto.
+Qed.
+
+(** Why [seekable_parts_tile] assumes full reads: the part count is fixed
+    before reading, so a seekable stream that returns short reads loses its
+    tail (4 bytes, chunk 2, first read returns 1 byte: [1], [2;3]). *)
+Theorem seekable_short_reads_refuted_pf :
+  exists data p c scr, 0 < c /\ 0 <= p <= Z.of_nat (length data) /\
+    concat (map snd (plan_part_bytes (fst (sk_parts data p c scr)))) <> skipn (Z.to_nat p) data.
+Proof. exists [1; 2; 3; 4], 0, 2, [1]. vm_compute. repeat split; discriminate. Qed.
+
+(** Any schedule of the tasks is a permutation of them. *)
+Theorem any_order_is_permutation {B} (d : B) (l : list B) order :
+  Permutation order (seq 0 (length l)) -> Permutation (reorder d l order) l.
+Proof. apply reorder_permutation. Qed.
